@@ -79,14 +79,14 @@ theorem groupOf_ok {w : World} (E : Env w) {T : Nat} {D : DigestFn 4} (hD : ∀ 
     (g : GroupSlab (MElems 3)) (hk0 : Nat)
     (hinv : ElemsInv T 4 D 3 1 [hk0] g.elems) (hc : 1 ≤ (MElems.ops 3).count g.elems)
     (hsize : g.hdr.size = mapDataSlabPrefixSize + (MElems.ops 3).size g.elems)
-    (hfit : (MElems.ops 3).size g.elems < 65536)
+    (hfit : E2EM.Fit 3 g.elems ∧ g.hdr.size ≤ maxUint32)
     (hv : ∀ v ∈ C10Persist.localVals 3 g.elems, Good w v)
     (hk : ∀ k ∈ localKeys 3 g.elems, validElem ⟨k.size, .val k.pay⟩)
     (hside : Side (groupOf w.stor none g)) :
     OKAll (groupOf w.stor none g) ∧ RootNoNext (groupOf w.stor none g) ∧
       (groupOf w.stor none g).byteSize = g.hdr.size ∧ (groupOf w.stor none g).id = g.hdr.id := by
-  obtain ⟨m1, m2, m3⟩ := melsOf_group (T := T) (r := 3) (D := D) (by decide) hD (reOK_stor E) hk0 g.elems
-    hinv hc hfit hv hk
+  obtain ⟨m1, m2, m3⟩ := melsOf_inner (T := T) (L := 4) (D := D) (by decide) hD (reOK_stor E) 3 1 [hk0] g.elems
+    hinv (Nat.le_refl 1) rfl hc hfit.1 hv hk
   have hsz : (MapData.mk g.hdr.id SlabID.undef none (melsOf w.stor 3 g.elems) true true).size = g.hdr.size := by
     simp only [MapData.size, m1, hsize, versionAndFlagSize, mapDataSlabPrefixSize, SlabIDLength]
     simp
@@ -94,7 +94,7 @@ theorem groupOf_ok {w : World} (E : Env w) {T : Nat} {D : DigestFn 4} (hD : ∀ 
   unfold groupOf at hside ⊢
   refine ⟨⟨m2, m3, hside.1, hside.2, E2E.validNext_undef, ?_, ?_⟩, ?_, hsz, rfl⟩
   · intro y hy; cases hy
-  · rw [hsz, hsize]; simp only [maxUint32, mapDataSlabPrefixSize]; omega
+  · rw [hsz]; exact hfit.2
   · intro hr; cases hr
 
 /-! ### 3. one index slab -/
